@@ -15,6 +15,8 @@ CONSTANTS
   LoadLocks = TRUE
   SaveLocks = FALSE
   TruncFirst = FALSE
+  StatBeforeLock = FALSE
+  FreshUpdates = FALSE
   Reread = TRUE
 INVARIANTS
   NoTornRead
